@@ -15,7 +15,7 @@ EXPLANATION = ("Ledger judge: every request the real library issues through its 
                "here by exact heap accounting only.")
 ASSUMPTIONS = ["glibc malloc accounting (mallinfo2) is exact for in-use bytes", "the harness frees its own per-call buffers (checked by the clean scenarios balancing to zero)"]
 
-SCEN = ["gssv", "gssvx_dofact", "gssvx_equil_trans", "gssvx_refactor", "gssvx_factored", "singular", "illegal_nprocs", "illegal_lwork", "query", "userwork", "gssv_threads"]
+SCEN = ["gssv", "gssvx_dofact", "gssvx_equil_trans", "gssvx_refactor", "gssvx_factored", "singular", "illegal_nprocs", "illegal_lwork", "query", "userwork", "gssv_threads", "gssvx_symm", "gssvx_symm_refactor"]
 
 
 def scenario_ops(name, rng, n):
@@ -30,6 +30,8 @@ def scenario_ops(name, rng, n):
     if name == "illegal_nprocs": return ["gssv 0 0 0", "gssvx 0 0 0 0 0 0 0 0x1p+0 8 4 0 0", "destroy"]
     if name == "illegal_lwork": return ["gssvx 0 0 1 0 0 0 0 0x1p+0 8 4 0 -5", "destroy"]
     if name == "query": return ["gssvx 0 0 1 0 0 0 0 0x1p+0 8 4 0 -1", "destroy"]
+    if name == "gssvx_symm": return ["gssvx 0 0 %d 0 0 0 0 0x0p+0 8 4 1 0" % P, "destroy"]
+    if name == "gssvx_symm_refactor": return ["gssvx 0 0 %d 1 0 0 0 0x1p-1 8 4 1 0" % P, "gssvx 0 0 %d 0 0 1 0 0x1p-1 8 4 1 0" % P, "destroy"]
     if name == "userwork": return ["gssvx 0 0 %d 0 0 0 0 0x1p+0 8 4 0 800000" % P, "destroy"]
     raise KeyError(name)
 
@@ -70,7 +72,7 @@ def valgrind_leaks(exe, script, timeout=300):
 def ledger_stage(ctx, jobs):
     """run each scenario on the `fault` build with the allocation ledger on; judge the logs with `sludrv ledger`"""
     C.build_lib("fault")
-    exes = C.build_harness_all_prec("h_drv.c", "fault", precs="ds")
+    exes = C.build_harness_all_prec("h_drv.c", "fault", precs="dszc")
     def one(j):
         name, prec, n, head, body = j
         script = head + "ledger 1\n" + body.replace("destroy\n", "") * 2 + "ledger dump\ndestroy\nledger dump\nquit\n"
@@ -118,22 +120,29 @@ def ledger_stage(ctx, jobs):
 def run(ctx):
     q = ctx.quick()
     C.build_lib("plain")
-    exes = C.build_harness_all_prec("h_drv.c", "plain", precs="ds")
+    exes = C.build_harness_all_prec("h_drv.c", "plain", precs="dszc")
     rng = random.Random(ctx.seed * 17 + 1717)
     jobs = []
-    for i in range(2 * len(SCEN) if q else 20 * len(SCEN)):
+    for i in range(3 * len(SCEN) if q else 24 * len(SCEN)):
         # every scenario in both storage orientations (the drivers wrap a row-stored A in a temporary column-stored header)
-        name = SCEN[i % len(SCEN)]; prec = rng.choice("ds"); nr = (i // len(SCEN)) % 2 == 1
-        n = rng.choice([3, 6, 10, 17])
-        M = G.random_matrix(rng, n, rng.choice(["random", "band", "grid"]), "float"); M.vals = H.new_values(rng, M)
+        name = SCEN[i % len(SCEN)]; prec = "dszc"[(i // (2 * len(SCEN)) + rng.randrange(2) * 2) % 4] if q else "dszc"[(i // (2 * len(SCEN))) % 4]; nr = (i // len(SCEN)) % 2 == 1
+        n = rng.choice([1, 3, 6, 10, 17])
+        # (patterns without any off-diagonal entry and n = 1 take the "empty adjacency" paths of the ordering / symbolic routines)
+        M = G.random_matrix(rng, n, "diag" if (i // len(SCEN)) % 3 == 2 else rng.choice(["random", "band", "grid"]), "float"); M.vals = H.new_values(rng, M)
         Ms = G.Mat(n, M.colptr, M.rowind, list(M.vals))
         k = rng.randrange(n)
         for t in range(Ms.colptr[k], Ms.colptr[k + 1]): Ms.vals[t] = 0.0
-        if prec == "s": G.round_single(M); G.round_single(Ms)
-        b = H.rand_rhs(rng, n, prec == "s")
+        cplx = prec in "cz"; single = prec in "sc"
+        if cplx:
+            # the per-precision drivers are separate source copies: complex ones get (re, im) values with the same zero column in Ms
+            M = G.Mat(n, M.colptr, M.rowind, [(v, rng.uniform(-1, 1)) for v in M.vals], True)
+            Ms = G.Mat(n, Ms.colptr, Ms.rowind, [((v, rng.uniform(-1, 1)) if v != 0.0 else (0.0, 0.0)) for v in Ms.vals], True)
+        if single: G.round_single(M); G.round_single(Ms)
+        b = H.rand_rhs(rng, n, single)
+        if cplx: b = [(v, w) for v, w in zip(b, H.rand_rhs(rng, n, single))]
         body = "\n".join(scenario_ops(name, rng, n)) + "\n"
-        head = "ienv 8 4 200 200 100 -50 -50 -30\n" + G.script_mat(0, M, nr=nr, single=(prec == "s")) + G.script_mat(1, Ms, nr=nr, single=(prec == "s"))
-        head += G.script_rhs(0, n, 1, n, [b], False, prec == "s") + "permc_get 0 1\n"
+        head = "ienv 8 4 200 200 100 -50 -50 -30\n" + G.script_mat(0, M, nr=nr, single=single) + G.script_mat(1, Ms, nr=nr, single=single)
+        head += G.script_rhs(0, n, 1, n, [b], cplx, single) + "permc_get 0 1\n"
         jobs.append((name + (":NR" if nr else ":NC"), prec, n, head, body))
     ctx.coverage["ledger"] = ledger_stage(ctx, jobs)
     def one(j):
